@@ -1472,8 +1472,9 @@ class FileSet:
         # we need the error catching:
         try:
             # Maybe there is a file with exact this timestamp?
+            # (the name says nothing about filters, so they must be absent)
             path = self.get_filename(timestamp, )
-            if self.file_system.isfile(path):
+            if not filters and self.file_system.isfile(path):
                 file_info = self.get_info(path)
                 if not self.is_excluded(file_info):
                     return file_info
